@@ -14,7 +14,8 @@
   * `C12_short_section_length_refused`       a declared length below the fixed part of the section (`fixedBits`:
         the widths of its parameters) is ALWAYS refused, and with a library error: nothing parses, at every section;
   * `C12_loop_propagates_section_error`      the section loop of `Decoder.process` hands that error on unchanged,
-        whatever was decoded before;
+        whatever was decoded before; `C12_short_section_length_refused_in_loop`: hence a short length is refused with a
+        library error at every section of every message, from any loop state;
   * `C12_bundled_layouts_lenOK`              the bundled layouts (regenerated from /repo on every run) meet the
         condition for every section with a length, under every combination of `info_only` /
         `ignore_value_expectation`; `C12_bundled_fixed_parts`: their fixed parts are 18 (editions 2, 3) / 22 (edition 4 and default), 4, 7, 4 octets.
@@ -171,6 +172,19 @@ theorem C12_loop_propagates_section_error {α : Type} (L : Layouts) (dc : DataCo
   rw [Stream.decLoop_succ]
   simp only [hcfg, hpres, Bool.not_true, Bool.false_eq_true, if_false, herr]
 
+/-- **at every section of `Decoder.process`**: whatever was decoded before (any loop state: section index, registry,
+    sections so far), when the section that comes next carries a length, its first 24 bits say `d` octets and that is
+    less than its fixed part, the whole decoding fails with a library error -/
+theorem C12_short_section_length_refused_in_loop {α : Type} (L : Layouts) (dc : DataCoder α)
+    (hdc : ∀ reg, R.ErrLib (dc.dec reg)) (o : DecOpts) (fuel idx : Nat) (reg : Registry) (out : DecOut α)
+    (bits rest : Bits) (s0 : SectionLayout) (d : Nat)
+    (hcfg : getCfg L idx reg.editionKey = .ok s0) (hpres : isPresent reg (o.transform s0) idx = .ok true)
+    (hs : (o.transform s0).lenOK = true) (hd : readUInt 24 bits = .ok (d, rest))
+    (hshort : d * 8 < fixedBits (o.transform s0).params) :
+    ∃ e, decLoop L dc o (fuel + 1) idx reg out bits = .error e ∧ e.isLib = true := by
+  obtain ⟨e, he, hl⟩ := C12_short_section_length_refused dc hdc (o.transform s0) hs reg out.nbits bits rest d hd hshort
+  exact ⟨e, C12_loop_propagates_section_error L dc o fuel idx reg out bits s0 e hcfg hpres he, hl⟩
+
 /-- the bundled layouts: every section that carries a length meets `lenOK`, in all four decoding modes -/
 theorem C12_bundled_layouts_lenOK :
     Gen.layouts.all (fun e => !e.layout.hasParam "section_length" ||
@@ -231,6 +245,13 @@ example : (decSection (rawCoder 5) (C12Len.sec 3) Registry.init 240 ((bytesToBit
       (fun _ => ()) = .error .bitRead ∧
     R.ErrLib (decSection (rawCoder 5) (C12Len.sec 3) Registry.init 240) :=
   ⟨by decide +kernel, C12_section_errors_are_library_errors _ (errLib_rawCoder 5) _ (by decide) _ _⟩
+
+/-- the hypotheses of `C12_short_section_length_refused_in_loop` are satisfiable: the loop about to decode section 3
+    (edition 4 in the registry) of a message whose section 3 declares 5 octets -/
+example : ∃ e, decLoop Gen.layouts (rawCoder 5) {} 4 3 (("edition", { val := .int 4, nbits := 8, pos := 56 }) :: Registry.init)
+      { sections := [], data := none, nbits := 240 } (bytesToBits [0, 0, 5] ++ C12Len.tail3) = .error e ∧ e.isLib = true :=
+  C12_short_section_length_refused_in_loop Gen.layouts (rawCoder 5) (errLib_rawCoder 5) {} 3 3 _ _ _ C12Len.tail3
+    (C12Len.sec 3) 5 (by decide +kernel) (by decide +kernel) (by decide) (by decide +kernel) (by decide)
 
 /-- at message level, by evaluation: the 56-octet edition-4 message of `Props/C12Msg.lean` (sections 1, 3, 4 at octets
     8, 30, 47 with 22, 17, 5 octets) with the declared length of section 1 set to EVERY value below 22, of section 3 to
